@@ -67,7 +67,9 @@ EmitEv ==
 TraceNext ==
   /\ l <= Len(Rec)
   /\ Adv
-  /\ CASE Ev = "reset"      -> Reset
+  \* (a guard that could be sent to another thread would end its scope there: the specification's DropGuard(t, p) is an
+  \*  action of the thread that installed it, which the library enforces through LocalRecorderGuard being !Send / !Sync)
+  /\ CASE Ev = "reset"      -> Reset /\ (("gsend" \in DOMAIN E) => (~E.gsend /\ ~E.gsync))
        [] Ev = "install"    -> E.t \in Threads /\ E.r \in Recs /\ E.kind \in {"guard", "closure"} /\ Install(E.t, E.r, E.kind)
        [] Ev = "drop"       -> E.t \in Threads /\ DropGuard(E.t, E.p)
        [] Ev = "forget"     -> E.t \in Threads /\ Forget(E.t, E.p)
